@@ -23,6 +23,9 @@ use std::panic::{catch_unwind, AssertUnwindSafe};
 use std::rc::Rc;
 
 thread_local! {
+    /// the optimizers of the current case, one per learning rate: a program that updates several times at one rate
+    /// does so through ONE `GradientDescent` object, as a training loop does
+    static OPTIMIZERS: RefCell<Vec<(u64, Rc<GradientDescent>)>> = RefCell::new(Vec::new());
     /// invocation log of the custom derivative closures: (creating instruction, dims, values)
     static LOG: RefCell<Vec<(usize, Vec<usize>, Vec<Float>)>> = RefCell::new(Vec::new());
 }
@@ -102,6 +105,8 @@ enum Instr {
     Literal(Vec<usize>, Vec<Float>),
     /// `*gradient_mut() = None`
     GradMutNone(usize),
+    /// `*gradient_mut() = Some(Array::from((dims, vals)))`
+    GradMutSet(usize, Vec<usize>, Vec<Float>),
     /// white-box probe of the bookkeeping cells behind a handle (hook `Array::verif_probe`); its slot stays empty
     Probe(usize),
 }
@@ -212,6 +217,12 @@ fn parse_instr(line: &str) -> Instr {
         "grad" => Instr::Grad(t.u()),
         "cleargrad" => Instr::ClearGrad(t.u()),
         "gradmutnone" => Instr::GradMutNone(t.u()),
+        "gradmutset" => {
+            let h = t.u();
+            let d = t.us();
+            let v = t.fs();
+            Instr::GradMutSet(h, d, v)
+        }
         "fetchgrad" => Instr::FetchGrad(t.u()),
         "takevec" => Instr::TakeVec(t.u()),
         "index" => {
@@ -604,6 +615,12 @@ fn exec(
             o_grad(a, out);
             *a.gradient_mut() = None;
         }
+        Instr::GradMutSet(h, d, v) => {
+            let a = var(vars, *h);
+            let g = Array::from((d.clone(), v.clone()));
+            o_grad(a, out);
+            *a.gradient_mut() = Some(g);
+        }
         Instr::FetchGrad(h) => {
             let a = var(vars, *h);
             o_grad(a, out);
@@ -660,7 +677,18 @@ fn exec(
                 .iter()
                 .map(|h| vars[*h].take().expect("dead variable"))
                 .collect();
-            GradientDescent::new(*lr).update(taken.iter_mut().collect());
+            let gd = OPTIMIZERS.with(|o| {
+                let mut o = o.borrow_mut();
+                let key = (*lr as f64).to_bits();
+                if let Some((_, g)) = o.iter().find(|(k, _)| *k == key) {
+                    Rc::clone(g)
+                } else {
+                    let g = Rc::new(GradientDescent::new(*lr));
+                    o.push((key, Rc::clone(&g)));
+                    g
+                }
+            });
+            gd.update(taken.iter_mut().collect());
             for (h, a) in hs.iter().zip(taken) {
                 vars[*h] = Some(a);
             }
@@ -756,6 +784,7 @@ fn literal(d: &[usize], v: &[Float]) -> Array {
 }
 
 fn run_plain(instrs: &[Instr], w: &mut dyn Write) {
+    OPTIMIZERS.with(|o| o.borrow_mut().clear());
     let mut vars: Vec<Option<Array>> = Vec::new();
     let mut model: Option<Model<'_>> = None;
     run_loop(instrs, 0, &mut vars, &mut model, w);
@@ -782,6 +811,7 @@ fn run_loop(
 }
 
 fn run_model(specs: &[LayerSpec], cost_name: &str, lr: Float, rest: &[Instr], w: &mut dyn Write) {
+    OPTIMIZERS.with(|o| o.borrow_mut().clear());
     // construction of the layers can itself panic (wrong value counts)
     let acts: Vec<Option<activation::Activation>> = specs
         .iter()
